@@ -432,6 +432,72 @@ func init() {
 		fr.i.R.S.addTimer(d, func() { ch.buf = append(ch.buf, zero(fr.i.timeType())) })
 		return ch
 	}
+	// time.Timer{C <-chan Time; ...}: C is field 0; the pending virtual timer is kept in a side table
+	h["time.NewTimer"] = func(fr *frame, args []value) value {
+		r := fr.i.R
+		tt := fr.i.prog.ImportedPackage("time").Type("Timer").Object().Type()
+		st := zero(tt).(structure)
+		ch := &vchan{cap: 1}
+		st[0] = ch
+		var cell value = st
+		p := &cell
+		d := r.concInt(args[0], "timer duration")
+		if r.timers == nil {
+			r.timers = map[*value]*vtimer{}
+		}
+		r.timers[p] = r.S.addTimer(d, func() {
+			if len(ch.buf) == 0 {
+				ch.buf = append(ch.buf, zero(fr.i.timeType()))
+			}
+		})
+		return p
+	}
+	h["(*time.Timer).Stop"] = func(fr *frame, args []value) value {
+		r := fr.i.R
+		vt := r.timers[args[0].(*value)]
+		if vt == nil {
+			return false
+		}
+		active := !vt.fired && !vt.stopped
+		vt.stopped = true
+		return active
+	}
+	h["(*time.Timer).Reset"] = func(fr *frame, args []value) value {
+		r := fr.i.R
+		p := args[0].(*value)
+		vt := r.timers[p]
+		active := vt != nil && !vt.fired && !vt.stopped
+		if vt != nil {
+			vt.stopped = true
+		}
+		ch := (*p).(structure)[0].(*vchan)
+		d := r.concInt(args[1], "timer duration")
+		if r.timers == nil {
+			r.timers = map[*value]*vtimer{}
+		}
+		r.timers[p] = r.S.addTimer(d, func() {
+			if len(ch.buf) == 0 {
+				ch.buf = append(ch.buf, zero(fr.i.timeType()))
+			}
+		})
+		return active
+	}
+	h["time.AfterFunc"] = func(fr *frame, args []value) value {
+		r := fr.i.R
+		tt := fr.i.prog.ImportedPackage("time").Type("Timer").Object().Type()
+		var cell value = zero(tt)
+		p := &cell
+		d := r.concInt(args[0], "timer duration")
+		fn := args[1]
+		i := fr.i
+		if r.timers == nil {
+			r.timers = map[*value]*vtimer{}
+		}
+		r.timers[p] = r.S.addTimer(d, func() {
+			r.S.spawn("go@AfterFunc", func() { call(i, nil, token.NoPos, fn, nil) })
+		})
+		return p
+	}
 	h["time.Sleep"] = func(fr *frame, args []value) value {
 		fired := false
 		d := fr.i.R.concInt(args[0], "time.Sleep duration")
@@ -712,6 +778,7 @@ func harnessIntrinsic(fn *ssa.Function) nativeFn {
 				return !s.pendingTimers()
 			})
 			me.quiescing = false
+			fr.i.R.YieldLog = append(fr.i.R.YieldLog, "@quiesce")
 			return nil
 		}
 	case "verifSettle":
@@ -735,6 +802,7 @@ func harnessIntrinsic(fn *ssa.Function) nativeFn {
 			})
 			me.quiescing = false
 			me.settling = false
+			fr.i.R.YieldLog = append(fr.i.R.YieldLog, "@settle")
 			return nil
 		}
 	case "verifSymbolicMapOrder":
